@@ -356,11 +356,83 @@ def broadcast_iterates_private_copy():
     return 'bool', cbool(fresh and top and not rebinding)
 
 
+# ------------------------------------------------------------------ parameter callbacks
+def _cb_loop():
+    """(body of the `with self.updateLock:` of announceUpdate, index of its single top-level for loop)"""
+    body = _body_after_docstring(_announce())
+    if len(body) != 1 or not isinstance(body[0], ast.With):
+        raise Shape('announceUpdate: body is not one with statement')
+    wb = body[0].body
+    loops = [i for i, n in enumerate(wb) if isinstance(n, ast.For)]
+    if len(loops) != 1:
+        raise Shape('announceUpdate: expected exactly one for loop at the top level of the with body')
+    return wb, loops[0]
+
+
+def _cb_try():
+    wb, i = _cb_loop()
+    loop = wb[i]
+    if len(loop.body) != 1 or not isinstance(loop.body[0], ast.Try):
+        raise Shape('callback loop: body is not one try statement')
+    t = loop.body[0]
+    if len(t.handlers) != 1:
+        raise Shape('callback loop: expected exactly one except clause')
+    return wb, i, loop, t
+
+
+def callback_except_class():
+    """the class named by the single except clause around the callback call ("Exception" on the pinned tree; a bare
+    except has no name and is omitted = fail closed)"""
+    _, _, _, t = _cb_try()
+    typ = t.handlers[0].type
+    if not isinstance(typ, ast.Name):
+        raise Shape('callback loop: except clause does not name one class')
+    return 'list N', cstr(typ.id)
+
+
+def callback_loop_shape():
+    """announceUpdate: `pobj.readerror = err` is directly followed by
+         for cbfunc, cbargs in self.paramCallbacks[pname]:
+             try: cbfunc(*cbargs, *value_err)
+             except <one class>: pass
+    (no else / finally / break / continue / return / raise inside), which is directly followed by the last statement
+    of the with body, `if pobj.export: self.updateCallback(self, pobj)`; value_err is (value, err) / (value,)"""
+    wb, i, loop, t = _cb_try()
+    ok = (0 < i == len(wb) - 2 and _norm(wb[i - 1]) == 'pobj.readerror=err'
+          and _norm(wb[i + 1]) == 'ifpobj.export:\nself.updateCallbackself,pobj'
+          and _norm(loop.target) == 'cbfunc,cbargs' and _norm(loop.iter) == 'self.paramCallbacks[pname]'
+          and not loop.orelse and not t.orelse and not t.finalbody
+          and [_norm(x) for x in t.body] == ['cbfunc*cbargs,*value_err']
+          and len(t.handlers[0].body) == 1 and isinstance(t.handlers[0].body[0], ast.Pass)
+          and not walk_type(loop, (ast.Break, ast.Continue, ast.Return, ast.Raise)))
+    ve = sorted(_norm(a) for a in walk_type(_announce(), ast.Assign)
+                if any(isinstance(x, ast.Name) and x.id == 'value_err' for x in a.targets))
+    ok = ok and ve == ['value_err=value,', 'value_err=value,err']
+    return 'bool', cbool(ok)
+
+
+def callback_registration_shape():
+    """addCallback(self, pname, callback_function, *args) appends (callback_function, args) to paramCallbacks[pname];
+    registerCallbacks: for pname in self.parameters: update_<pname> of the follower if it has one, else its
+    announceUpdate with the argument pname when pname is in autoupdate"""
+    m = find_class(parse(MB), 'Module')
+    a = find_func(m, 'addCallback')
+    ok = ([x.arg for x in a.args.args] == ['self', 'pname', 'callback_function'] and a.args.vararg is not None
+          and a.args.vararg.arg == 'args' and not a.args.kwonlyargs and not a.args.defaults
+          and [_norm(x) for x in _body_after_docstring(a)] == ['self.paramCallbacks[pname].appendcallback_function,args'])
+    r = find_func(m, 'registerCallbacks')
+    ok = ok and [_norm(x) for x in _body_after_docstring(r)] == [
+        'autoupdate=setautoupdate',
+        "forpnameinself.parameters:\ncbfunc=getattrmodobj,'update_'+pname,None\nifcbfunc:\nself.addCallbackpname,cbfunc\n"
+        'elifpnameinautoupdate:\nself.addCallbackpname,modobj.announceUpdate,pname']
+    return 'bool', cbool(ok)
+
+
 FACTS = [announce_in_updateLock, updateLock_is_rlock_per_module, store_then_notify, notify_only_if_exported,
          changed_includes_readerror, repeated_error_test, omit_test, read_wrapper_routes, write_wrapper_routes,
          assignment_routes, make_update_reads_cache, announce_update_broadcasts, update_unchanged_codes,
          omit_resolution, err_table, error_eq_ignores_methods, activate_registers_first, snapshot_in_updateLock,
-         broadcast_iterates_private_copy]
+         broadcast_iterates_private_copy, callback_except_class, callback_loop_shape, callback_registration_shape]
 
 FINGERPRINTS = {
     'Module.announceUpdate': _announce,
@@ -379,4 +451,6 @@ FINGERPRINTS = {
     'Dispatcher.unsubscribe': lambda: _disp_func('unsubscribe'),
     'Dispatcher.reset_connection': lambda: _disp_func('reset_connection'),
     'Dispatcher.remove_connection': lambda: _disp_func('remove_connection'),
+    'Module.addCallback': lambda: find_func(find_class(parse(MB), 'Module'), 'addCallback'),
+    'Module.registerCallbacks': lambda: find_func(find_class(parse(MB), 'Module'), 'registerCallbacks'),
 }
